@@ -20,6 +20,10 @@ def load_mutants():
             pf = os.path.join(sd, d, 'patch.diff')
             if os.path.exists(meta) and os.path.exists(pf):
                 m = json.load(open(meta))
+                if m.get('superseded'):
+                    # a seed that a later fix: commit has made harmless (the repaired code tolerates the change): on the current tree it is a benign edit, and must be silent
+                    ms.append(dict(name='seed_' + d, patch=os.path.join('seeded', d, 'patch.diff'), expect={}, desc=m.get('summary', ''), kind='benign'))
+                    continue
                 exp = {p: [x.replace(' (vacuity guard)', '') for x in r] for p, r in m.get('detected_by', {}).items()}
                 ms.append(dict(name='seed_' + d, patch=os.path.join('seeded', d, 'patch.diff'), expect=exp, desc=m.get('summary', ''), kind='broken' if exp else 'missed-seed'))
     return ms
